@@ -332,7 +332,8 @@ def budget_plans(draw):
 def _worker_budget_exh(ctx, job):
     """All 5^5 fate assignments to the five transmissions of the first of two host payloads."""
     K, first = job
-    ops = [["h", 0.0, 2], ["n", 0.0005, 1], ["h", 0.001, 3]]
+    # the peer also sends long after the host may have given up on its own frame (host side FAILED, peer healthy)
+    ops = [["h", 0.0, 2], ["n", 0.0005, 1], ["h", 0.001, 3], ["n", 25.0, 2]]
     for rest in itertools.product(range(5), repeat=4):
         f5 = [FATES[first]] + [FATES[i] for i in rest]
         plan = {"K": K, "ops": ops, "budget": 1,
